@@ -199,6 +199,9 @@ def saves_and_monitors(ctx, rng, idx):
     nsave = int(rng.integers(1, 6))
     ks = sorted(int(k) for k in rng.integers(0, N, nsave))
     tsave = sorted(times[k] + float(rng.uniform(0.05, 0.9)) * (times[k + 1] - times[k]) for k in ks)
+    if rng.random() < 0.5:
+        # ... and times the trajectory reaches EXACTLY (read from a monitor or from the iterates of an earlier run): end of a step, bit for bit
+        tsave = sorted(set(tsave + [times[int(k)] for k in rng.integers(1, max(2, N), int(rng.integers(1, 3)))]))
     mons, mdesc = _monitors(rng, s.model)
     ctx.describe(integrator=iname, cfl=cfl, N=N, tsave=tsave, monitors=mdesc, directives=dirs, **s.desc())
     who = "gear" if iname == "gear" else "implicit" if implicit else "explicit"
